@@ -258,6 +258,8 @@ def push_pairing(ctx, crate, tag):
                 d, chain = q.origin_thru(b, pt["args"][1], transparent=q.TRANSPARENT | {"futures::FutureExt::boxed_local"})
                 if d["k"] == "rvalue" and d["r"].get("ak") == "coroutine" and d["r"].get("def") == s["r"].get("def"):
                     flows = True
+                elif d["k"] in ("multi", "undef") and "p" not in s["p"] and s["p"]["l"] in q.slice_locals(b, pt["args"][1]):
+                    flows = True        # one of several async blocks joined by a match / if (each boxed), all of which are pushed
             ctx.ob("push-pairing" + tag, b.key, "async-block-is-pushed", ok and flows, "%s:%s" % (b.file, s["line"]),
                    "the request future is handed to pending_futures on every path, not awaited in place")
     ctx.floor("push-pairing" + tag, "async blocks created by queue_*", n, 4)
